@@ -888,6 +888,12 @@ func DeleteHistoricVersions(ctx context.Context, s *DB, before time.Time) error 
 		if err != nil {
 			return fmt.Errorf("delete node: %s: %w", l, err)
 		}
+		// The node cache doubles as the record of what is already stored
+		// (flush skips the PUT of a cached node). Forget the deleted node,
+		// or a later version with the same content would link to nothing.
+		if rc, ok := s.cfg.NodeCache.(interface{ Remove(key interface{}) }); ok {
+			rc.Remove(fmt.Sprintf("%s/%s", s.persist.NodeURLPrefix(), l))
+		}
 	}
 	for _, l := range roots {
 		_, err := s.s3Client.DeleteObjectWithContext(ctx, &s3.DeleteObjectInput{
